@@ -5,7 +5,7 @@
    from triple insertion order, blank-node labels, prefix bindings and the hash seed in the real
    code is decided by the multi-process differential (DESIGN.md). *)
 From Coq Require Import List NArith Bool Permutation.
-From Verif Require Import Base.SetList Base.Terms Paths.Path Shapes.AST Shapes.Leaf Shapes.Eval Shapes.OrderProofs
+From Verif Require Import Base.SetList Base.Terms Paths.Path Shapes.AST Shapes.Leaf Shapes.Eval Shapes.OrderProofs Shapes.MemberOrder
   Closure.Worklist Closure.WorklistProofs Gen.T4.
 Import ListNotations.
 
@@ -25,6 +25,26 @@ Theorem C09_pick_from_singleton : forall (A:Type) (pick pick':list A -> option A
   (forall y, In y l -> y = x) -> forall a b, pick l = Some a -> pick' l = Some b -> a = b.
 Proof. intros A. exact (@pick_singleton A). Qed.
 Print Assumptions C09_pick_from_singleton.
+
+(* The members of sh:or / sh:and / sh:xone are consulted as a collection: taking them in another order gives the same
+   component outcome (verdict and results), for any nested evaluator, environment, data and value nodes. *)
+Theorem C09_or_member_order : forall trig W nested g E s fvs ep members members' r,
+  NoDup members -> Permutation members members' ->
+  evalc trig W nested g E s fvs ep (COr [members]) = Ok r -> evalc trig W nested g E s fvs ep (COr [members']) = Ok r.
+Proof. exact or_member_order. Qed.
+Print Assumptions C09_or_member_order.
+
+Theorem C09_and_member_order : forall trig W nested g E s fvs ep members members' r,
+  NoDup members -> Permutation members members' ->
+  evalc trig W nested g E s fvs ep (CAnd [members]) = Ok r -> evalc trig W nested g E s fvs ep (CAnd [members']) = Ok r.
+Proof. exact and_member_order. Qed.
+Print Assumptions C09_and_member_order.
+
+Theorem C09_xone_member_order : forall trig W nested g E s fvs ep members members' r,
+  Permutation members members' ->
+  evalc trig W nested g E s fvs ep (CXone [members]) = Ok r -> evalc trig W nested g E s fvs ep (CXone [members']) = Ok r.
+Proof. exact xone_member_order. Qed.
+Print Assumptions C09_xone_member_order.
 
 (* Tie A, insertion order: the subclass / superclass closures of the real code (the work-list programs generated from
    pyshacl/rdfutil/closure.py) return the same set of nodes for any two listings of the same triples - whatever order
